@@ -302,6 +302,21 @@ def contains(interp, container, x):
 def select(interp, seq, idx: SV):
     """seq[idx] with a concrete sequence and symbolic int index: fork over feasible positions."""
     n = len(seq)
+    kinds = {kind_of(x) for x in seq}
+    if n and len(kinds) == 1 and next(iter(kinds)) in ("int", "real", "str", "bool"):
+        # scalar elements: an if-then-else chain instead of one path per position
+        k = next(iter(kinds))
+        inb = z3.And(idx.z >= 0, idx.z < n)
+        if interp.ctx.feasible(z3.Not(z3.And(idx.z >= -n, idx.z < n))):
+            if not interp.ctx.branch(SV(z3.And(idx.z >= -n, idx.z < n), "bool"), "select-inrange"):
+                from .interp import PyRaise
+
+                raise PyRaise(IndexError("index out of range"))
+        pos = z3.If(idx.z < 0, idx.z + n, idx.z)
+        acc = to_z3(seq[n - 1])
+        for i in range(n - 2, -1, -1):
+            acc = z3.If(pos == i, to_z3(seq[i]), acc)
+        return SV(acc, k)
     feas = []
     for i in range(-n, n):
         if interp.ctx.feasible(idx.z == i):
@@ -414,10 +429,8 @@ def _str_method(interp, s, name, *args):
 
 
 def z3_replace_all(s, a, b):
-    try:
-        return z3.ReplaceAll(s, a, b)  # not in every z3py
-    except Exception:  # noqa: BLE001
-        raise Unsupported("replace_all")
+    f = z3.Function("str_replace_all", z3.StringSort(), z3.StringSort(), z3.StringSort(), z3.StringSort())
+    return f(s, a, b)  # uninterpreted: only identifier-shape assertions consume it
 
 
 def sv_isinstance(v: SV, classes):
@@ -485,18 +498,18 @@ class SymEnv:
             self._mem[key] = z3.Function(
                 f"{self.tag}_mem{'r' if real else 'i'}{n}",
                 z3.StringSort(),
-                *([z3.IntSort()] * n),
+                *([z3.RealSort()] * n),
                 z3.RealSort() if real else z3.IntSort(),
             )
         return self._mem[key]
 
     def mem(self, name, idxs):
         idxs = list(idxs)
-        return SV(self._memf(len(idxs), True)(to_z3(name), *[to_z3(i, "int") for i in idxs]), "real")
+        return SV(self._memf(len(idxs), True)(to_z3(name), *[to_z3(i, "real") for i in idxs]), "real")
 
     def memi(self, name, idxs):
         idxs = list(idxs)
-        return SV(self._memf(len(idxs), False)(to_z3(name), *[to_z3(i, "int") for i in idxs]), "int")
+        return SV(self._memf(len(idxs), False)(to_z3(name), *[to_z3(i, "real") for i in idxs]), "int")
 
     def div(self, a, b):
         return SV(to_z3(a, "real") / to_z3(b, "real"), "real")
@@ -771,7 +784,42 @@ def _repr(interp, x):
 
 @model(sorted)
 def _sorted(interp, xs, key=None, reverse=False):
-    raise Unsupported("sorted() of symbolic elements")
+    """sorted() of scalars: fresh outputs constrained to be a sorted permutation of the inputs."""
+    xs = interp.iterate(xs)
+    if key is not None:
+        raise Unsupported("sorted() with key on symbolic elements")
+    n = len(xs)
+    sig = [SV(z3.Int(fresh_name("sortperm")), "int") for _ in range(n)]
+    for s_ in sig:
+        interp.ctx.assume(z3.And(s_.z >= 0, s_.z < n))
+    if n > 1:
+        interp.ctx.assume(z3.Distinct(*[s_.z for s_ in sig]))
+    vals = [select(interp, xs, s_) for s_ in sig]
+    for u, v in zip(vals, vals[1:]):
+        interp.ctx.assume(to_z3(u) >= to_z3(v) if reverse else to_z3(u) <= to_z3(v))
+    return vals
+
+
+def list_index(interp, lst, x, *a):
+    """list.index on scalars: position of the first equal element (ValueError if none)."""
+    if a:
+        raise Unsupported("list.index with start/stop")
+    from .interp import PyRaise
+
+    eqs = [as_bool_sv(interp, interp.compare(ast.Eq(), e, x)) for e in lst]
+    none = True
+    for e in eqs:
+        none = and_(none, not_(e))
+    if none is True or (isinstance(none, SV) and interp.ctx.branch(none, "index-notfound")):
+        raise PyRaise(ValueError("x not in list"))
+    acc = z3.IntVal(len(lst) - 1)
+    for i in range(len(lst) - 2, -1, -1):
+        e = eqs[i]
+        acc = z3.If(to_z3(e), z3.IntVal(i), acc)
+    return SV(z3.simplify(acc), "int")
+
+
+LIST_METHOD_MODELS = {"index": list_index}
 
 
 @model(map)
@@ -825,3 +873,30 @@ def _asarray(interp, x, *a, **k):
 @model(np.array)
 def _array(interp, x, *a, **k):
     return x
+
+
+@model(np.isclose)
+def _isclose(interp, a, b, rtol=1e-05, atol=1e-08, equal_nan=False):
+    x, y = to_z3(a, "real"), to_z3(b, "real")
+    d = z3.If(x - y >= 0, x - y, y - x)
+    ay = z3.If(y >= 0, y, -y)
+    return SV(d <= to_z3(atol, "real") + to_z3(rtol, "real") * ay, "bool")
+
+
+@model(np.argsort)
+def _argsort(interp, xs, *a, **k):
+    """External contract: the result is a permutation of range(n) that sorts xs (no stability promised)."""
+    xs = interp.iterate(xs)
+    n = len(xs)
+    if not is_symbolic(xs):
+        return list(np.argsort(xs))
+    sig = [SV(z3.Int(fresh_name("argsort")), "int") for _ in range(n)]
+    for s_ in sig:
+        interp.ctx.assume(z3.And(s_.z >= 0, s_.z < n))
+    if n > 1:
+        interp.ctx.assume(z3.Distinct(*[s_.z for s_ in sig]))
+    vals = [select(interp, xs, s_) for s_ in sig]
+    for u, v in zip(vals, vals[1:]):
+        interp.ctx.assume(to_z3(u) <= to_z3(v))
+    interp.ctx.ghost.setdefault("externals", set()).add("np.argsort: returns a permutation of range(n) that sorts its argument")
+    return sig
